@@ -32,9 +32,9 @@ RULE = ("real cmd_send.send()/cmd_receive.receive() against the real server, tra
         "delivered); distinct = (payload kind, size, fault, position, path).")
 ASSUMPTIONS = ["file modes/timestamps are not compared", "a leftover <dest>.tmp after a failure is allowed",
                "sizes <= ~1 MB, trees <= 12 entries"]
-FLOORS = {"quick": {"clean_success": 60, "data_faults_fired": 50, "ack_faults_fired": 10, "liar_cases": 20, "grow_cases": 15, "stale_tmp_cases": 30, "unsendable_entries_skipped": 20, "mode_zeromode": 5, "mode_verify-yes": 10, "mode_verify-no": 5, "mode_sender-allocates": 5, "mode_receiver-allocates": 5,
+FLOORS = {"quick": {"receiver_failed_at_the_disk_limit": 15, "clean_success": 60, "data_faults_fired": 50, "ack_faults_fired": 10, "liar_cases": 20, "grow_cases": 15, "stale_tmp_cases": 30, "unsendable_entries_skipped": 20, "mode_zeromode": 5, "mode_verify-yes": 10, "mode_verify-no": 5, "mode_sender-allocates": 5, "mode_receiver-allocates": 5,
                     "dest_inbox-old_file_prompt": 2, "dest_inbox-empty_directory_prompt": 2, "dest_newname_directory_prompt": 2},
-          "thorough": {"clean_success": 2000, "data_faults_fired": 4000, "ack_faults_fired": 250, "liar_cases": 800, "mode_zeromode": 150, "mode_verify-yes": 300, "mode_verify-no": 150, "mode_sender-allocates": 150, "mode_receiver-allocates": 150}}
+          "thorough": {"receiver_failed_at_the_disk_limit": 500, "clean_success": 2000, "data_faults_fired": 4000, "ack_faults_fired": 250, "liar_cases": 800, "mode_zeromode": 150, "mode_verify-yes": 300, "mode_verify-no": 150, "mode_sender-allocates": 150, "mode_receiver-allocates": 150}}
 APPID = "lothar.com/wormhole/text-or-file-xfer"
 TEXTS = ["hello", "", "it's \"quoted\"", "line1\nline2\r\n\ttab", "\x1b[31mred\x1b[0m \x07bell", "‮evil‬ bidi",
          "ünïcödé ✓ 𝔘", "'", '"', "\\", "\\n", "a" * 5000, "\x00nul", " sep", "'\"'"]
@@ -96,6 +96,10 @@ def cases(tier, seed, prep=None):
         out.append({"kind": "clean", "payload": ["directory", "file", "directory"][i % 3], "seed": base + k, "relay": i % 7 == 0,
                     "dest": ["inbox-old", "inbox-old", "inbox-empty", "newname"][(i // 3) % 4], "accept": bool((i // 12) % 2)})
         k += 1
+    # the receiver's disk takes only part of the file: the limit falls inside the last record
+    for i in range(24 if q else 800):
+        k += 1
+        out.append({"kind": "fsize", "payload": "file", "seed": base + k, "min_records": [1, 1, 2, 5][i % 4], "relay": i % 6 == 0})
     for i in range(40 if q else 1000):
         out.append({"kind": "liar", "payload": "file", "seed": base + k, "lie": ["wrong-hash", "not-ok", "garbage", "never", "hash-empty", "hash-null", "hash-zero", "hash-list", "hash-upper", "hash-prefix"][i % 10]})
         k += 1
@@ -157,13 +161,16 @@ def lying_receiver(world, code, lie, log):
 
 
 def run_case(spec):
+    import resource
     world = World(spec["seed"], relay=True)
     rng = world.work_rng
     r = world.reactor
     base = new_sandbox("vt-c04-")
+    old_limit = resource.getrlimit(resource.RLIMIT_FSIZE)
     try:
         return _run(spec, world, rng, r, base)
     finally:
+        resource.setrlimit(resource.RLIMIT_FSIZE, old_limit)
         world.finish()
         force_rmtree(base)
 
@@ -205,6 +212,15 @@ def _run(spec, world, rng, r, base):
             with open(os.path.join(rd, desc["name"] + ".tmp"), "wb") as f:
                 f.write(rng.randbytes(rng.choice([1, desc["size"] + 1, desc["size"] + 70000, 200000])))
             desc["stale_tmp"] = True
+        if spec["kind"] == "fsize":
+            # the receiver's file system takes only part of the file (quota, ulimit -f, disk full): every file this process
+            # writes from now on ends at `limit` bytes, which falls inside the last record of the transfer - the write that
+            # crosses it is a short write, the next one fails
+            import resource
+            last = desc["size"] % 16384 or 16384
+            limit = desc["size"] - rng.randint(1, last - 1 if last > 1 else 1)
+            desc["fsize_limit"] = limit
+            resource.setrlimit(resource.RLIMIT_FSIZE, (limit, resource.getrlimit(resource.RLIMIT_FSIZE)[1]))
     sa.cwd = sd
     ra = mkargs(code=code, transit_helper=helper, listen=listen)
     ra.cwd = rd
@@ -473,7 +489,7 @@ def _run(spec, world, rng, r, base):
     return {"violations": viol, "nontrivial": nontrivial,
             "counters": {"clean_success": int(clean and so == "success" and ro == "success"),
                          "data_faults_fired": int(kind == "datafault" and fired), "ack_faults_fired": int(kind == "ackfault" and fired),
-                         "liar_cases": int(kind == "liar" and bool(liar_log)), "grow_cases": int(kind == "grow" and bool(grown)), "stale_tmp_cases": int(bool(desc.get("stale_tmp"))), "unsendable_entries_skipped": len(desc.get("unsendable", [])), "clean_failed": int(bool(clean_failure)), "hangs": int(bool(hang)), "faults_not_reached": int(kind in ("datafault", "ackfault") and not fired),
+                         "liar_cases": int(kind == "liar" and bool(liar_log)), "receiver_disk_limit_inside_the_last_record": int(kind == "fsize"), "receiver_failed_at_the_disk_limit": int(kind == "fsize" and ro != "success"), "grow_cases": int(kind == "grow" and bool(grown)), "stale_tmp_cases": int(bool(desc.get("stale_tmp"))), "unsendable_entries_skipped": len(desc.get("unsendable", [])), "clean_failed": int(bool(clean_failure)), "hangs": int(bool(hang)), "faults_not_reached": int(kind in ("datafault", "ackfault") and not fired),
                          "payload_" + payload: 1, "outcomes_through_the_cli_exit_status_mapping": int(via_dispatch), **({"dest_%s_%s_%s" % (spec["dest"], payload, "accept-file" if spec["accept"] else "prompt"): int(so == "success" and ro == "success")} if spec.get("dest") else {}), **({"mode_" + spec["mode"]: int(so == "success" and ro == "success") if spec["mode"] != "verify-no" else int(so not in ("success", "pending"))} if spec.get("mode") else {}), "via_relay": int(any(l.tags.get("port") == 4001 for l in r.links)),
                          "steps": world.step, "bytes_payload": desc.get("size", 0)},
             "sets": {"clean_transfers_that_failed": [clean_failure] if clean_failure else [],
